@@ -864,8 +864,9 @@ from . import speclang
 # condition is checked on the code the real compiler emits for a family of functions that put a struct / array value at
 # each kind of transfer point; pointer-typed operands (negative controls) must NOT be required to be copies.
 class VCase:
-    def __init__(self, name, gosrc, sinks=(), locals_=(), note='', check=None):
+    def __init__(self, name, gosrc, sinks=(), locals_=(), note='', check=None, ctor_args=None, methods=()):
         self.name, self.gosrc, self.sinks, self.locals, self.note = name, gosrc, tuple(sinks), tuple(locals_), note
+        self.ctor_args, self.methods = ctor_args, tuple(methods)   # (constructor name, value-typed argument indexes); value-receiver methods
         self.check = check        # (JavaScript expression over the compiled package P, value Go's semantics gives): the replay
 
 C07_PRELUDE_GO = '''
@@ -877,6 +878,7 @@ func asink(a A) { a[0] = 99 }
 func vsink(ss ...S) { ss[0].x = 99; if len(ss) > 1 { ss[1].x = 98 } }
 func psink(p *S) {}
 func wsink(w W) { w.s.x = 99 }
+func (s S) Mut() { s.x = 99 }
 '''
 
 def c07_cases():
@@ -897,6 +899,11 @@ def c07_cases():
     C.append(VCase('V_MapIns', 'func V_MapIns(m map[int]S, a S) { m[1] = a }'))
     C.append(VCase('V_RangeVal', 'func V_RangeVal(ss []S) int { t := 0; for _, s := range ss { s.x = 5; t += s.x }; return t }', locals_=('s',)))
     # (append is not a transfer point of the translator: $append copies the elements in the runtime, $internalAppend -> $copyArray)
+    C.append(VCase('V_StructLit', 'func V_StructLit(a S, b A) W { return W{s: a, a: b} }', ctor_args=('W', (0, 1)),
+                   check=('(function(){ var a = new P.S.ptr(1, 2); var w = P.V_StructLit(a, [1, 2, 3]); a.x = 9; return w.s.x; })()', '1')))
+    C.append(VCase('V_StructLitPos', 'func V_StructLitPos(a S, b A) W { return W{a, b} }', ctor_args=('W', (0, 1)),
+                   check=('(function(){ var a = new P.S.ptr(1, 2); var w = P.V_StructLitPos(a, [1, 2, 3]); a.x = 9; return w.s.x; })()', '1')))
+    C.append(VCase('V_ValueRecv', 'func V_ValueRecv(a S) int { a.Mut(); return a.x }', methods=('Mut',), check=('P.V_ValueRecv(new P.S.ptr(1, 2))', '1')))
     # negative control: pointers are passed as they are
     C.append(VCase('V_PtrPass', 'func V_PtrPass(p *S) int { psink(p); return p.x }', sinks=(), note='control'))
     return C
@@ -964,6 +971,14 @@ def c07_transfer_points(fn, case):
             if len(a) >= 2 and a[1].get('type') == 'ArrayExpression':
                 for j, el in enumerate(a[1]['elements']):
                     out.append(('element %d of an array literal' % j, el))
+        if t == 'NewExpression' and case.ctor_args and n['callee'].get('type') == 'MemberExpression' and n['callee']['object'].get('name') == case.ctor_args[0] \
+           and n['callee']['property'].get('name') == 'ptr':
+            for i in case.ctor_args[1]:
+                if i < len(n['arguments']):
+                    out.append(('field %d of a %s literal' % (i, case.ctor_args[0]), n['arguments'][i]))
+        if t == 'CallExpression' and n['callee'].get('type') == 'MemberExpression' and not n['callee'].get('computed') \
+           and n['callee']['property'].get('name') in case.methods:
+            out.append(('receiver of the value method %s' % n['callee']['property']['name'], n['callee']['object']))
         if t == 'AssignmentExpression' and n['operator'] == '=' and n['left'].get('type') == 'Identifier' and n['left']['name'] in case.locals:
             out.append(('initial value of %s' % n['left']['name'], n['right']))
         if t == 'VariableDeclarator' and n.get('init') and n['id'].get('type') == 'Identifier' and n['id']['name'] in case.locals:
